@@ -18,9 +18,10 @@
    Transports: the shared queue (FIFO of (stream, payload)); the control connection (FIFO of
    polling / fallback-data / stream-close events) fed by fast-path writers and by the send loop.
    Receiver (the peer's single event-loop thread): connection events in order; a polling event starts
-   the drain loop of handlePolling/markNotWorking; a fallback event appends data to its stream
-   (handleFallbackData), a stream-close event or a close element half-closes the stream
-   (handleStreamClose / handleStreamMessage).  [deliv] is the order in which the items reach their
+   the drain loop of handlePolling/markNotWorking; a fallback-data / stream-close event first empties
+   the queue (consumeRecvQueue: pop until empty, flag untouched — fix of
+   C07:fallback-overtakes-unpublished-wakeup), then appends its data to its stream (handleFallbackData)
+   or half-closes it (handleStreamClose); a close element half-closes the stream (handleStreamMessage).  [deliv] is the order in which the items reach their
    streams; the reader of stream s sees [filter s deliv] in this order, DEnd = ErrEndOfStream mark. *)
 From Coq Require Import List ZArith Lia Bool Arith.
 From Shm Require Import Gen.Consts Model.Wakeup.
@@ -38,7 +39,9 @@ Inductive mop := OFlush (shmok qfull : bool) | OClose (qfull : bool).
 Inductive mpc := MIdle | MMark | MWr | MSlow | MEv | MRel | MNotify | MWait.
 Record mlocal := { mpc_ : mpc; mtodo : list mop; nxt : nat; infb : bool; closed : bool }.
 
-Inductive mcpc := KIdle | KPopH | KPopT | KPopInc | KStore0 | KSizeT | KSizeH (empty : bool) | KStore1.
+Inductive mcpc := KIdle | KPopH | KPopT | KPopInc | KStore0 | KSizeT | KSizeH (empty : bool) | KStore1
+                | KFbH (x : item) | KFbT (x : item) | KFbInc (x : item).
+                  (* handleFallbackData / handleStreamClose holding socket item x: consumeRecvQueue first *)
 Definition sitem := (xev * option nat)%type.           (* event, writer waiting for it (waitForSend) *)
 Inductive mspc := LIdle | LCas (e : sitem) | LWait (e : sitem) | LWrite (e : sitem) | LRel (o : option nat).
 
@@ -66,7 +69,8 @@ Definition mset_sl l s := mmk (queue s) (mflag s) (msock s) (mwriting s) (mnotif
 Definition put_q (x : item) s := mmk (queue s ++ [x]) (mflag s) (msock s) (mwriting s) (mnotif s) (msendch s) (acks s) (mprods s) (mcons s) (msl s) (flog s ++ [(x, VQ)]) (deliv s).
 Definition put_s (x : item) (i : nat) s := mmk (queue s) (mflag s) (msock s) (mwriting s) (mnotif s) (msendch s ++ [(XItem x, Some i)]) (acks s) (mprods s) (mcons s) (msl s) (flog s ++ [(x, VS)]) (deliv s).
 Definition pop_q (x : item) (q : list item) s := mmk q (mflag s) (msock s) (mwriting s) (mnotif s) (msendch s) (acks s) (mprods s) (mcons s) (msl s) (flog s) (deliv s ++ [(x, VQ)]).
-Definition recv_s (x : item) (r : list xev) s := mmk (queue s) (mflag s) r (mwriting s) (mnotif s) (msendch s) (acks s) (mprods s) (mcons s) (msl s) (flog s) (deliv s ++ [(x, VS)]).
+(* the socket item held by the handler reaches its stream; the handler returns *)
+Definition deliver_s (x : item) s := mmk (queue s) (mflag s) (msock s) (mwriting s) (mnotif s) (msendch s) (acks s) (mprods s) KIdle (msl s) (flog s) (deliv s ++ [(x, VS)]).
 
 Definition msetp (i : nat) (p : mlocal) (s : mst) : mst := mset_prods (set_nth i p (mprods s)) s.
 Definition mmkp (c : mpc) (p : mlocal) : mlocal :=
@@ -114,8 +118,14 @@ Definition mcstep (s : mst) : mst :=
   | KIdle => match msock s with
              | [] => s
              | XPoll :: r => mset_cons KPopH (mset_sock r s)
-             | XItem x :: r => recv_s x r s
+             | XItem x :: r => mset_cons (KFbH x) (mset_sock r s)
              end
+  | KFbH x => mset_cons (KFbT x) s
+  | KFbT x => match queue s with [] => deliver_s x s | _ => mset_cons (KFbInc x) s end
+  | KFbInc x => match queue s with
+                | [] => mset_cons (KFbH x) s        (* unreachable *)
+                | e :: q => mset_cons (KFbH x) (pop_q e q s)
+                end
   | KPopH => mset_cons KPopT s
   | KPopT => match queue s with [] => mset_cons KStore0 s | _ => mset_cons KPopInc s end
   | KPopInc => match queue s with
